@@ -131,6 +131,7 @@ type obsRec struct {
 	SrcFl      []string  `json:"srcfl"`      // statfs flags of the ordinary source directory (host fact)
 	LockFl     []string  `json:"lockfl"`     // statfs flags of the "locked" source directory (host fact)
 	ShareFl    []string  `json:"sharefl"`    // statfs flags of the shared-propagation source file system (host fact)
+	FlipFl     []string  `json:"flipfl"`     // statfs flags of the flip file system when the sandbox runs (host fact)
 	SrcShared  bool      `json:"srcshared"`  // that file system has shared propagation in the driver's namespace (host fact)
 	DynMounted int       `json:"dynmounted"` // file systems the driver mounted below shared sources once the sandbox was set up
 	// which of the maskable procfs entries exist on this kernel (host fact, from the host's /proc)
@@ -242,6 +243,7 @@ func (e *env) prepare(c caseRec) (*caseDirs, error) {
 	if err := os.WriteFile(cd.canary, []byte("canary\n"), 0644); err != nil {
 		return nil, err
 	}
+	flipMounted := false
 	for _, en := range c.Ents {
 		if en.API != "bind" && en.API != "raw" {
 			continue
@@ -266,6 +268,25 @@ func (e *env) prepare(c caseRec) (*caseDirs, error) {
 				return nil, err
 			}
 			if err := os.WriteFile(filepath.Join(ld, cd.canaryName), []byte("canary\n"), 0644); err != nil {
+				return nil, err
+			}
+		case 'q':
+			// on a tmpfs of its own that is read-only while the table is built and writable when the
+			// sandbox runs (flipRO / flipRW)
+			fd := e.flipDir(c)
+			if !flipMounted {
+				if err := os.MkdirAll(fd, 0755); err != nil {
+					return nil, err
+				}
+				if err := syscall.Mount("vflip", fd, "tmpfs", 0, "mode=0777"); err != nil {
+					return nil, fmt.Errorf("mount flip tmpfs: %v", err)
+				}
+				flipMounted = true
+				if err := os.WriteFile(filepath.Join(fd, cd.canaryName), []byte("canary\n"), 0644); err != nil {
+					return nil, err
+				}
+			}
+			if err := mkSourceDir(filepath.Join(fd, en.Src)); err != nil {
 				return nil, err
 			}
 		case 'p':
@@ -315,6 +336,8 @@ func (e *env) srcPath(cd *caseDirs, c caseRec, id string) string {
 		return filepath.Join(e.locked, fmt.Sprintf("c%d", c.ID), id)
 	case id[0] == 'p':
 		return filepath.Join(e.shared, fmt.Sprintf("c%d", c.ID), id)
+	case id[0] == 'q':
+		return filepath.Join(e.flipDir(c), id)
 	default:
 		return filepath.Join(cd.src, id)
 	}
@@ -324,7 +347,45 @@ func (e *env) cleanup(cd *caseDirs, c caseRec) {
 	os.RemoveAll(cd.dir)
 	os.RemoveAll(filepath.Join(e.locked, fmt.Sprintf("c%d", c.ID)))
 	e.dynUmount(c)
+	if e.hasFlip(c) {
+		syscall.Unmount(e.flipDir(c), syscall.MNT_DETACH)
+		os.Remove(e.flipDir(c))
+	}
 	os.RemoveAll(filepath.Join(e.shared, fmt.Sprintf("c%d", c.ID)))
+}
+
+// Sources of the "flip" kinds live on a tmpfs of their own (one per case, in the driver's private mount
+// namespace).  The host state changes between the moment the mount table is built and the moment
+// it is used: read-only while Builder.FilterNotExist / Build run, writable when the sandbox runs.
+func (e *env) flipDir(c caseRec) string {
+	return filepath.Join(e.work, "flip", fmt.Sprintf("c%d", c.ID))
+}
+
+func (e *env) flipFlags(c caseRec) []string {
+	if !e.hasFlip(c) {
+		return []string{}
+	}
+	return statfsFlags(e.flipDir(c))
+}
+
+func (e *env) hasFlip(c caseRec) bool {
+	for _, en := range c.Ents {
+		if (en.API == "bind" || en.API == "raw") && en.Src[0] == 'q' {
+			return true
+		}
+	}
+	return false
+}
+
+func (e *env) flip(c caseRec, ro bool) error {
+	if !e.hasFlip(c) {
+		return nil
+	}
+	fl := uintptr(syscall.MS_REMOUNT | syscall.MS_BIND)
+	if ro {
+		fl |= syscall.MS_RDONLY
+	}
+	return syscall.Mount("", e.flipDir(c), "", fl, "")
 }
 
 // dynMount: the host mounts a tmpfs with a marker file below every shared-propagation bind source.
@@ -441,6 +502,8 @@ func (e *env) parseMountinfo(cd *caseDirs, c caseRec, text string) []miEnt {
 			root = strings.TrimPrefix(root, cd.src+"/")
 		case strings.HasPrefix(root, lockrel+"/") && f[sep+1] == "tmpfs":
 			root = strings.TrimPrefix(root, lockrel+"/") // same relative layout on the locked and on the shared tmpfs
+		case len(root) == 3 && root[:2] == "/q" && f[sep+1] == "tmpfs":
+			root = root[1:] // bind from the per-case flip tmpfs
 		case root == "/null":
 			root = "devnull"
 		case strings.HasPrefix(root, "/.mask") && f[sep+1] == "tmpfs":
@@ -580,13 +643,20 @@ func (p *pipeReader) finish() []byte {
 }
 
 func (e *env) runFork(c caseRec) (o obsRec, err error) {
-	o = obsRec{Case: c, SrcFl: e.srcFl, LockFl: e.lockFl, ShareFl: e.shareFl, SrcShared: e.isShared, ProcFacts: procFacts(c), Mi: []miEnt{}, MiIn: []miEnt{}, Tree: []treeEnt{}, Canary: []string{}, Masks: []maskRes{}, Masks2: []maskRes{}, Tests: []testRes{}}
+	o = obsRec{Case: c, SrcFl: e.srcFl, LockFl: e.lockFl, ShareFl: e.shareFl, SrcShared: e.isShared, ProcFacts: procFacts(c), Mi: []miEnt{}, MiIn: []miEnt{}, Tree: []treeEnt{}, Canary: []string{}, Masks: []maskRes{}, Masks2: []maskRes{}, Tests: []testRes{}, FlipFl: []string{}}
 	cd, err := e.prepare(c)
 	if err != nil {
 		return o, err
 	}
 	defer e.cleanup(cd, c)
+	if err := e.flip(c, true); err != nil {
+		return o, err
+	}
 	params, err := e.builder(cd, c).Build()
+	if ferr := e.flip(c, false); ferr != nil {
+		return o, ferr
+	}
+	o.FlipFl = e.flipFlags(c)
 	if err != nil {
 		o.Phase, o.Err = "build", err.Error()
 		return o, nil
@@ -669,13 +739,20 @@ func (l *lockedBuf) String() string {
 }
 
 func (e *env) runCont(c caseRec) (o obsRec, err error) {
-	o = obsRec{Case: c, SrcFl: e.srcFl, LockFl: e.lockFl, ShareFl: e.shareFl, SrcShared: e.isShared, ProcFacts: procFacts(c), Mi: []miEnt{}, MiIn: []miEnt{}, Tree: []treeEnt{}, Canary: []string{}, Masks: []maskRes{}, Masks2: []maskRes{}, Tests: []testRes{}}
+	o = obsRec{Case: c, SrcFl: e.srcFl, LockFl: e.lockFl, ShareFl: e.shareFl, SrcShared: e.isShared, ProcFacts: procFacts(c), Mi: []miEnt{}, MiIn: []miEnt{}, Tree: []treeEnt{}, Canary: []string{}, Masks: []maskRes{}, Masks2: []maskRes{}, Tests: []testRes{}, FlipFl: []string{}}
 	cd, err := e.prepare(c)
 	if err != nil {
 		return o, err
 	}
 	defer e.cleanup(cd, c)
+	if err := e.flip(c, true); err != nil {
+		return o, err
+	}
 	mb := e.builder(cd, c)
+	if ferr := e.flip(c, false); ferr != nil {
+		return o, ferr
+	}
+	o.FlipFl = e.flipFlags(c)
 	var links []container.SymbolicLink
 	for _, l := range c.Links {
 		links = append(links, container.SymbolicLink{LinkPath: abs(l.Lp), Target: l.To})
